@@ -183,7 +183,7 @@ fn run<T: Fl + 'static>(c: &Case, lx: &mut Local) {
             }
         }
         // metamorphic: affine rescaling of variable 0 (positive scale) leaves the matrix unchanged; negation flips row/column 0
-        for (a, b) in [(2.0, 0.0), (0.5, 1.0), (3.0, -10.0), (-1.0, 0.0)] {
+        for (a, b) in [(2.0, 0.0), (0.5, 1.0), (3.0, -10.0), (-1.0, 0.0), (1e-9, 0.0), (1e-13, 0.0), (1e9, 0.0), (-1e-11, 0.0)] {
             let mut m2 = m.clone();
             for k in 0..o {
                 m2[k] = T::of(a * m[k].to_f64_() + b);
@@ -250,7 +250,7 @@ fn main() {
     }
     rep.run_sub(
         "complete-small-matrices",
-        &format!("every (variables x observations) matrix over {{-1,0,0.5,2}} for sizes 1x2, 2x2, 1x3, 2x3, 3x2 (complete), 2x4 and 3x3 ({}), at offsets 0 and 1e6 (f32: 64), f64/f32 alternating, layout rotating over all 40 2-D layouts; cov with ddof 0,1,0.5,o-0.25; pearson_correlation; invariance under x0 -> 2x0, 0.5x0+1, 3x0-10 and sign flip under x0 -> -x0", if thorough { "complete" } else { "2x4 complete; 3x3: sub-lattice of about every 5th matrix" }),
+        &format!("every (variables x observations) matrix over {{-1,0,0.5,2}} for sizes 1x2, 2x2, 1x3, 2x3, 3x2 (complete), 2x4 and 3x3 ({}), at offsets 0 and 1e6 (f32: 64), f64/f32 alternating, layout rotating over all 40 2-D layouts; cov with ddof 0,1,0.5,o-0.25; pearson_correlation; invariance under x0 -> 2x0, 0.5x0+1, 3x0-10, 1e-9 x0, 1e-13 x0, 1e9 x0 and sign flip under x0 -> -x0, -1e-11 x0", if thorough { "complete" } else { "2x4 complete; 3x3: sub-lattice of about every 5th matrix" }),
         cases.into_iter(),
         |c, lx| {
             lx.nontrivial(c.r >= 2);
